@@ -449,13 +449,11 @@ class Interp:
             self.depth -= 1
 
     def call_contract(self, c, qn, args, kwargs):
-        if kwargs:
-            raise Unsupported(f"keyword call of contracted function {qn}")
         if c.requires is not None:
-            self.oblige("requires:" + qn, c.requires(*args))
-        res = c.result(self, *args) if c.result else None
+            self.oblige("requires:" + qn, c.requires(*args, **kwargs))
+        res = c.result(self, *args, **kwargs) if c.result else None
         if c.ensures is not None:
-            self.assume(c.ensures(res, *args))
+            self.assume(c.ensures(res, *args, **kwargs))
         return res
 
     def call(self, f, args, kwargs=None):
@@ -1299,6 +1297,11 @@ class Interp:
             # sub-module?
             if any(k.startswith(dotted + ".") for k in self.models):
                 return ModRef(dotted)
+            if base.dotted == "numpy" or base.dotted.startswith("numpy."):
+                from .libmodels import native_numpy
+                nn = native_numpy(dotted)
+                if nn is not None:
+                    return nn
             self.unmodelled.add(dotted)
             raise Unsupported(f"unmodelled library attribute {dotted}")
         if isinstance(base, NDArr):
